@@ -293,7 +293,7 @@ func c08defaults(c *Ctx, rd *reader) {
 				if callsStatic(&p.Events[i], rd.writeControl) {
 					wc = append(wc, &p.Events[i])
 				}
-				if ev := &p.Events[i]; ev.Kind == core.EvCall && !callsStatic(ev, rd.writeControl) && ev.Static != nil && c.P.InPkg(ev.Static) && ev.Static != fcm {
+				if ev := &p.Events[i]; ev.Kind == core.EvCall && !ev.Inlined && !callsStatic(ev, rd.writeControl) && ev.Static != nil && c.P.InPkg(ev.Static) && ev.Static != fcm {
 					okD, whyD = false, "default handler calls "+shortFn(ev.Static)
 				}
 			}
